@@ -239,6 +239,49 @@ def replay_asym(case: dict) -> dict:
     return res
 
 
+def replay_regularity(case: dict) -> dict:
+    """(f) rigorous elementary bounds that follow from the convolution definition f(t) = int_0^inf exp(-k u) g(t - u) du with the
+    area-normalised Gaussian g (f' = g - k f): finiteness, 0 <= f <= min(1, g_max / k), |f(t2) - f(t1)| <= 2 g_max |t2 - t1|,
+    and f(t) >= exp(-k d) d min(g(t - d), g(t)).  They hold at ALL times, in particular across the switch between the two
+    numerical branches inside the pulse, where the equality itself is not decided."""
+    import math
+
+    import numpy as np
+
+    from . import drivers_irf as D
+    res = {"evals": 1, "nontriv": [], "viol": [], "skip": {}, "cid": "regularity"}
+    k, w, c = float(case["k"]), float(case["w"]), 0.75
+    times = c + w * np.linspace(-8.0, 8.0, 1601)
+    item, pars = D.plain_irf_items([c], [w], None, True, True)
+    _, m = D.decay_matrix(item, pars, [0.0], times, rates=[k])
+    f = np.asarray(m, dtype=float).reshape(-1)
+    key = f"C05.Regularity: rate x width = {k * w:g}"
+    gmax = 1.0 / (w * math.sqrt(2 * math.pi))
+
+    def g(t):
+        return gmax * math.exp(-0.5 * ((t - c) / w) ** 2)
+    if not np.all(np.isfinite(f)):
+        res["viol"].append((key + " [finite]", f"non-finite column entries at t - c = {((times[~np.isfinite(f)][:3] - c) / w).tolist()} widths"))
+        return res
+    ub = min(1.0, gmax / k)
+    if f.min() < -1e-12 or f.max() > ub * (1 + 1e-9):
+        res["viol"].append((key + " [range]", f"column range [{f.min()!r}, {f.max()!r}] outside [0, min(1, g_max/k) = {ub!r}]"))
+    df = np.abs(np.diff(f))
+    lip = 2 * gmax * (times[1] - times[0]) * (1 + 1e-6)
+    if df.max() > lip:
+        i = int(df.argmax())
+        res["viol"].append((key + " [lipschitz]", f"jump of {df.max()!r} between t - c = {(times[i] - c) / w:.3f} w and the next grid point ({f[i]!r} -> {f[i + 1]!r}); the convolution cannot change by more than 2 g_max dt = {lip!r}"))
+    d = min(w, 1.0 / k)
+    for i in range(0, len(times), 40):
+        t = times[i]
+        lb = math.exp(-k * d) * d * min(g(t - d), g(t))
+        if lb > 1e-280 and f[i] < 0.5 * lb:
+            res["viol"].append((key + " [lower bound]", f"column = {f[i]!r} at t - c = {(t - c) / w:.2f} w; the convolution is at least {lb!r}"))
+            break
+    res["nontriv"].append(f"regularity:{k}:{w}")
+    return res
+
+
 def replay_reported(case: dict) -> dict:
     """(e) through optimize(): Result.data matrix, irf_center_location, irf_shift."""
     import numpy as np
@@ -303,6 +346,8 @@ def _work(job):
             return kind, case, replay_case(case)
         if kind == "asym":
             return kind, case, replay_asym(case)
+        if kind == "regularity":
+            return kind, case, replay_regularity(case)
         return kind, case, replay_reported(case)
     except MachineryError as e:
         return kind, case, {"machinery": str(e)}
@@ -384,6 +429,7 @@ def run(tier: str, replay=None) -> int:
     if (len(cases), len(asyms)) != (ne, na):
         raise MachineryError(f"emission incomplete: {len(cases)} configurations / {len(asyms)} asymptote cases parsed, expected {ne} / {na}")
     jobs = [("case", c) for c in cases] + [("asym", a) for a in asyms]
+    jobs += [("regularity", {"k": p / w, "w": w}) for w in (0.125, 1.0) for p in (0.0625, 1.0, 4.0, 6.0, 8.0, 12.0, 20.0, 30.0)]
     rng = random.Random(seed())
     legal = [c for c in cases if not c["error"] and c["widthsPositive"] and (c["cfg"]["spectral"] or c["cfg"]["shiftVar"])]
     jobs += [("reported", c) for c in rng.sample(legal, min(len(legal), 16 if tier == "quick" else 160))]
